@@ -362,6 +362,81 @@ fn c04_pair<A: Elem, B: Elem>(ctx: &mut Ctx, max_len: usize) {
         if len == 0 {
             continue;
         }
+        // --- every value handle reports the real element type: value_typeid(), size(), as_bytes().len()
+        for probe in 0..9 {
+            if !sp.take() {
+                continue;
+            }
+            let mut p = Pair::<A, B>::new(len);
+            let id = p.id();
+            let names = ["ElementRef", "ElementMut", "PopHandle", "RemoveHandle", "SwapRemoveHandle", "DrainedElement", "LazyClone(ElementRef)", "LazyClone(RemoveHandle)", "Wrapper+Raw"];
+            let opsig = format!("meta({})", names[probe]);
+            let desc = format!("{name}|len={len}|{opsig}");
+            let want = (TypeId::of::<A>(), size_of::<A>(), size_of::<A>());
+            fn meta<H: AnyValue>(h: &H) -> (TypeId, usize, usize) {
+                (h.value_typeid(), h.size(), h.as_bytes().len())
+            }
+            let Pair { va, ma, .. } = &mut p;
+            let r = guarded(|| match probe {
+                0 => meta(&*va.at(0)),
+                1 => meta(&*va.at_mut(0)),
+                2 => meta(&va.pop().unwrap()),
+                3 => meta(&va.remove(0)),
+                4 => meta(&va.swap_remove(0)),
+                5 => {
+                    let mut d = va.drain(0..1);
+                    let e = d.next().unwrap();
+                    meta(&e)
+                }
+                6 => {
+                    let e = va.at(0);
+                    let l = e.lazy_clone();
+                    meta(&l)
+                }
+                7 => {
+                    let h = va.remove(0);
+                    let l = h.lazy_clone();
+                    let l2 = l.lazy_clone();
+                    meta(&l2)
+                }
+                _ => {
+                    let w = AnyValueWrapper::new(A::make(id));
+                    let m1 = meta(&w);
+                    drop(w);
+                    let mut slot = RawSlot::<A>::new(id);
+                    let raw = unsafe { AnyValueRaw::new(slot.ptr(), size_of::<A>(), TypeId::of::<A>()) };
+                    let m2 = meta(&raw);
+                    if m1 == m2 { m1 } else { (TypeId::of::<()>(), usize::MAX, usize::MAX) }
+                }
+            });
+            match probe {
+                2 => {
+                    ma.pop();
+                }
+                3 | 5 | 7 => {
+                    ma.remove(0);
+                }
+                4 => {
+                    ma.swap_remove(0);
+                }
+                _ => {}
+            }
+            match r {
+                Ok(got) => {
+                    if got != want {
+                        sp.viol("type-meta", &opsig, format!(
+                            "handle reports (type id ok: {}, size {}, as_bytes().len() {}) for an element of size {}",
+                            got.0 == want.0, got.1, got.2, want.1), &desc);
+                    }
+                }
+                Err(m) => sp.viol("type-meta", &opsig, format!("panicked: {m}"), &desc),
+            }
+            sp.ctx.stats.bump("accepted_controls", 1);
+            p.check(&mut sp, &opsig, &desc, false);
+            drop(p);
+            sp.drain_reg(&opsig, &desc);
+            sp.done(&desc, true, &opsig);
+        }
         for probe in 0..16 {
             if !sp.take() {
                 continue;
